@@ -1990,13 +1990,18 @@ fn specialize(ctor: &Ctor, pattern: &[TypedPattern]) -> Vec<PatternStack> {
             | PatternEnum::StructIgnoreRemaining(struct_name_in_pattern, fields)
                 if struct_name == struct_name_in_pattern =>
             {
-                vec![
-                    fields
-                        .iter()
-                        .map(|(_, pattern)| pattern.clone())
-                        .chain(tail)
-                        .collect(),
-                ]
+                // a pattern with `..` lists only some of the fields, the others match anything:
+                let mut specialized = Vec::with_capacity(field_types.len());
+                for (field_name, ty) in field_types {
+                    match fields.iter().find(|(name, _)| name == field_name) {
+                        Some((_, pattern)) => specialized.push(pattern.clone()),
+                        None => {
+                            let wildcard = PatternEnum::Identifier("_".to_string());
+                            specialized.push(Pattern::typed(wildcard, ty.clone(), *meta));
+                        }
+                    }
+                }
+                vec![specialized.into_iter().chain(tail).collect()]
             }
             _ => vec![],
         },
